@@ -7,6 +7,7 @@ import (
 	"fmt"
 	"io"
 	"os"
+	"strings"
 	"sync/atomic"
 	"time"
 
@@ -177,8 +178,30 @@ func (r c05Req) deltas() []Delta {
 }
 
 func (s *Sys) doC05(r c05Req) Resp {
-	if r.Kind == "patch" {
+	switch r.Kind {
+	case "patch":
 		return s.Patch(r.deltas())
+	case "mgr-write", "mgr-delete":
+		// the Manager's own multi-tuple create / delete, called directly (no
+		// handler transaction around it): strings are mapped first, then ONE call
+		e := s.Env
+		ts := r.Ins
+		if r.Kind == "mgr-delete" {
+			ts = r.Del
+		}
+		its, err := e.Internal(ts...)
+		if err == nil {
+			if r.Kind == "mgr-write" {
+				err = e.Reg.RelationTupleManager().WriteRelationTuples(e.Ctx, its...)
+			} else {
+				err = e.Reg.RelationTupleManager().DeleteRelationTuples(e.Ctx, its...)
+			}
+		}
+		resp := Resp{Transport: "rest", Status: 200}
+		if err != nil {
+			resp.Status, resp.Body = 500, []byte(err.Error())
+		}
+		return resp
 	}
 	return s.Transact(r.deltas())
 }
@@ -201,9 +224,21 @@ func genC05(t *Tape, env *Env, big bool) (pre []Tuple, rq c05Req) {
 	if nI+nD == 0 {
 		nI = 2
 	}
-	rq.Kind = []string{"transact", "patch"}[t.Choose(2)]
-	if nI > 500 {
+	rq.Kind = []string{"transact", "patch", "transact", "patch", "mgr-write", "mgr-delete"}[t.Choose(6)]
+	if nI > 500 && rq.Kind == "patch" {
 		rq.Kind = "transact"
+	}
+	if rq.Kind == "mgr-write" {
+		nD = 0
+		if nI == 0 {
+			nI = 2
+		}
+	}
+	if rq.Kind == "mgr-delete" {
+		nI = 0
+		if nD == 0 {
+			nD = 2
+		}
 	}
 	for i := 0; i < nI; i++ {
 		x := Tuple{NS: pick(t, []string{"N0", "N1"}), Obj: fmt.Sprintf("i%d", i), Rel: "r0", Sub: Subject{ID: fmt.Sprintf("u%d", i%7)}}
@@ -276,6 +311,13 @@ func runC05Faults(env *Env, rc *RunCtx, sys *Sys) {
 	pre, rq := genC05(t, env, big)
 	theGen.Reseed(orderSeed, order)
 	env.loadPre(sys, pre)
+	if rq.Kind == "mgr-write" || rq.Kind == "mgr-delete" {
+		// the name mappings are not relationships: they exist before the request
+		if _, err := env.Internal(append(append([]Tuple(nil), rq.Ins...), rq.Del...)...); err != nil {
+			env.T.Fatalf("harness: pre-map: %v", err)
+		}
+		rc.Count("probe_direct_manager_call", 1)
+	}
 	env.Snapshot()
 	s0, rows0 := env.StateHash()
 	w := func(extra map[string]any) map[string]any {
@@ -298,22 +340,33 @@ func runC05Faults(env *Env, rc *RunCtx, sys *Sys) {
 	}
 	s1, _ := env.StateHash()
 	N := len(log)
-	// L2 monitor: one transaction, every write on its connection
-	begins, commits, conn := 0, 0, -1
+	// L2 monitor: every write statement on keto_relation_tuples runs inside ONE
+	// transaction (one BEGIN ... COMMIT on one connection); nothing is written
+	// outside a transaction
+	begins, commits := 0, 0
 	nIns, nDel := 0, 0
+	txOf := map[int]int{} // connection -> id of its open transaction
+	txSeq := 0
+	tupleTx := map[int]bool{}
 	for _, st := range log {
 		switch st.Kind {
 		case StmtBegin:
 			begins++
-			conn = st.Conn
-		case StmtCommit:
-			commits++
+			txSeq++
+			txOf[st.Conn] = txSeq
+		case StmtCommit, StmtRollback:
+			if st.Kind == StmtCommit {
+				commits++
+			}
+			delete(txOf, st.Conn)
 		case StmtWrite:
-			if !st.InTx || st.Conn != conn {
-				rc.Violate("write-outside-transaction", rq.Kind, fmt.Sprintf("statement %q ran outside the request's transaction (conn %d, in tx %v; transaction on conn %d)", st.Text, st.Conn, st.InTx, conn), w(map[string]any{"statements": stmtSummary(log)}), -1, nil)
+			tx, open := txOf[st.Conn]
+			if !st.InTx || !open {
+				rc.Violate("write-outside-transaction", rq.Kind, fmt.Sprintf("statement %q ran outside any transaction (conn %d)", st.Text, st.Conn), w(map[string]any{"statements": stmtSummary(log)}), -1, nil)
 				return
 			}
 			if st.Table == "keto_relation_tuples" {
+				tupleTx[tx] = true
 				if len(st.Text) > 6 && st.Text[:6] == "INSERT" {
 					nIns++
 				} else {
@@ -322,8 +375,8 @@ func runC05Faults(env *Env, rc *RunCtx, sys *Sys) {
 			}
 		}
 	}
-	if begins != 1 || commits != 1 {
-		rc.Violate("not-one-transaction", rq.Kind, fmt.Sprintf("request used %d BEGIN and %d COMMIT", begins, commits), w(map[string]any{"statements": stmtSummary(log)}), -1, nil)
+	if len(tupleTx) > 1 || begins != commits {
+		rc.Violate("not-one-transaction", rq.Kind, fmt.Sprintf("the request's relationship writes were spread over %d transactions (%d BEGIN, %d COMMIT)", len(tupleTx), begins, commits), w(map[string]any{"statements": stmtSummary(log)}), -1, nil)
 		return
 	}
 	if nIns >= 2 {
@@ -371,6 +424,9 @@ func runC05Faults(env *Env, rc *RunCtx, sys *Sys) {
 	}
 	// invalid tuple at every position (sampled when the request is large)
 	all := rq.deltas()
+	if rq.Kind == "mgr-write" || rq.Kind == "mgr-delete" {
+		all = nil // the invalid-input positions are exercised through the API kinds
+	}
 	var ps []int
 	if len(all) <= 12 {
 		for p := range all {
@@ -448,6 +504,13 @@ func runC05Crash(env *Env, rc *RunCtx, sys *Sys) {
 	pre, rq := genC05(t, env, big)
 	theGen.Reseed(orderSeed, order)
 	env.loadPre(sys, pre)
+	if rq.Kind == "mgr-write" || rq.Kind == "mgr-delete" {
+		// the name mappings are not relationships: they exist before the request
+		if _, err := env.Internal(append(append([]Tuple(nil), rq.Ins...), rq.Del...)...); err != nil {
+			env.T.Fatalf("harness: pre-map: %v", err)
+		}
+		rc.Count("probe_direct_manager_call", 1)
+	}
 	env.Snapshot()
 	s0, rows0 := env.StateHash()
 	theGen.Reseed(orderSeed+1, order)
@@ -475,7 +538,10 @@ func runC05Crash(env *Env, rc *RunCtx, sys *Sys) {
 		os.RemoveAll(snapDir)
 		_ = os.MkdirAll(snapDir, 0o755)
 		snap := func() {
-			for _, suf := range []string{"", "-journal", "-wal", "-shm"} {
+			// the -shm file is only a cache of the WAL index (rebuilt from the WAL by the
+			// first connection after a crash); a copy of it taken while connections are
+			// live could be stale but self-consistent, so it is left out
+			for _, suf := range []string{"", "-journal", "-wal"} {
 				copyFile(env.dbPath+suf, snapDir+"/db.sqlite"+suf)
 			}
 		}
@@ -506,9 +572,10 @@ func runC05Crash(env *Env, rc *RunCtx, sys *Sys) {
 		db.Close()
 		at := "after-ack"
 		if k <= N {
-			at = log[k-1].String()
+			// no connection ids in the site: they differ between processes
+			at = strings.TrimSpace(log[k-1].Kind.String() + " " + log[k-1].Table)
 		}
-		ex := map[string]any{"crash": map[string]any{"statement": k, "of": N, "at": at}, "response": resp.String()}
+		ex := map[string]any{"crash": map[string]any{"statement": k, "of": N, "at": at}, "response": resp.String(), "hash_before": s0, "hash_after": s1, "hash_reopened": sr}
 		if err != nil {
 			rc.Violate("unreadable-after-crash", at, fmt.Sprintf("database files left by a crash at statement %d/%d cannot be read: %v", k, N, err), w(ex), -1, nil)
 			return
